@@ -889,3 +889,4 @@ EXPLANATION += (' Round 6: ' + 'UNIFORM/once/<function>: each time-bearing field
 EXPLANATION += (' Round 7: ' + "ADJUST/reversed-rejected, ADJUST/no-negative-event-stored, CONCAT/no-zero-shift (scenarios; guards read at expression level); UNIFORM accepts the update computed from the argument's twin field.")
 EXPLANATION += (' Rounds 9-10: ' + 'STRETCH/unscaled-exit-only-for-factor-one (must-pass-through of the total_time scaling); REPEAT/carry-after-break shared from C02.')
 EXPLANATION += (' Round 11: ' + 'REPEAT/cut-takes-every-event; CONCAT/redundant-is-restating-the-predecessor.')
+EXPLANATION += (' Round 12: ' + 'ADJUST/map-applied-whatever-the-time; UNIFORM reads a nested one-return scaling helper.')
